@@ -86,6 +86,65 @@ class Deg:
         return ds.pop() if len(ds) == 1 else (0 if not ds else None)
 
 
+def _grouped_by_sort(xv):
+    """The vectorised spelling of 'list simplex j under each of its points': with flat = simplices.ravel() (entry e belongs to simplex
+    e // width and names point flat[e]),  np.split(np.argsort(flat) // width, np.cumsum(np.bincount(flat, minlength=n))[:-1])  cuts the
+    entries, sorted by point, at the running counts: chunk p is exactly the simplices that contain p."""
+    from .generic import flat_of
+
+    def unwrap(t):
+        a = t.as_atom()
+        while a and a[0] == "call" and call_name(a) in ("numpy.asarray", "numpy.array", "numpy.ascontiguousarray") and a[2]:
+            t = a[2][0]
+            a = t.as_atom()
+        return t
+
+    def flat_src(t):
+        f = flat_of(t)
+        return unwrap(f) if f.key() != t.key() else None
+
+    for e in xv.events:
+        if e.kind != "assign" or e.value is None:
+            continue
+        a = e.value.as_atom()
+        if not (a and a[0] == "comp" and a[1] == "ListComp" and len(a) == 4 and len(a[3]) == 1 and not a[3][0][2]):
+            continue
+        it = a[3][0][1].as_atom()
+        if not (it and it[0] == "call" and call_name(it) in ("numpy.split", "numpy.array_split") and len(it[2]) == 2):
+            continue
+        elt = a[2].as_atom()
+        if not (elt and ((elt[0] == "call" and call_name(elt) in (".tolist", "list")) or elt[0] == "sub")):
+            continue
+        order, cuts = it[2][0].as_atom(), it[2][1].as_atom()
+        if not (order and order[0] == "bin" and order[1] == "FloorDiv"):
+            continue
+        srt = order[2].as_atom()
+        if not (srt and srt[0] == "call" and call_name(srt) == "numpy.argsort" and srt[2]):
+            continue
+        src = flat_src(srt[2][0])
+        if src is None or src.key() != "$simplices":
+            continue
+        width = order[3]
+        if width.key() not in ("3", "$simplices.shape[1]"):
+            continue
+        if not (cuts and cuts[0] == "sub" and len(cuts[2]) == 1 and cuts[2][0].key() == "(slice None -1 None)"):
+            continue
+        cs = cuts[1].as_atom()
+        if not (cs and cs[0] == "call" and call_name(cs) == "numpy.cumsum" and cs[2]):
+            continue
+        bc = cs[2][0].as_atom()
+        if not (bc and bc[0] == "call" and call_name(bc) == "numpy.bincount" and bc[2]):
+            continue
+        s2 = flat_src(bc[2][0])
+        kw = dict(bc[3]) if len(bc) > 3 and bc[3] else {}
+        ml = kw.get("minlength") or (bc[2][2] if len(bc[2]) > 2 else None)
+        if s2 is None or s2.key() != src.key() or ml is None or "facet_dual_vectors" not in ml.key() and "facet_normals" not in ml.key() \
+                and "facet_energies" not in ml.key():
+            continue
+        return True
+    return False
+
+
 def run(chk):
     repo = chk.repo
     w = repo.module(W)
@@ -170,6 +229,8 @@ def run(chk):
             okm = outer.kind == "enumerate" and outer.iter.key() == "$simplices" and tgt and tgt[0] == "sub" and \
                 tgt[2][0].key() == P.atom(("sub", P.atom(("sub", outer.iter, (outer.index,))), (inner.index,))).key() and \
                 e.extra["args"][0].key() == outer.index.key()
+        if not app:
+            okm = _grouped_by_sort(xv)
         chk.ob("R19.2", W, "WulffConstruction._extract_wulff_from_dual_mesh", "every simplex index is appended to the facet list of each of its dual points", bool(okm))
     if chk.want("R19.3"):
         pp = w.ev("project_to_plane", opaque={"projected_points", "a_vector", "b_vector"})
